@@ -588,6 +588,14 @@ fn dedent_bytes(source: &[u8], is_utf8_byte_string: bool) -> Result<Vec<u8>, Str
   )
 }
 
+#[cfg(feature = "additional-controls")]
+use core::convert::TryFrom;
+
+#[cfg(feature = "additional-controls")]
+fn plus_overflow() -> String {
+  ".plus result is outside the representable integer range".to_string()
+}
+
 /// Numeric addition of target and controller. The Vec return type is to
 /// accommodate more than one type choice in the controller
 #[cfg(feature = "additional-controls")]
@@ -601,13 +609,30 @@ pub fn plus_operation<'a>(
     Type2::UintValue { value, .. } => match controller {
       Type2::UintValue {
         value: controller, ..
-      } => values.push((value + controller).into()),
+      } => values.push(
+        value
+          .checked_add(*controller)
+          .ok_or_else(plus_overflow)?
+          .into(),
+      ),
       Type2::IntValue {
         value: controller, ..
-      } => values.push(((*value as isize + controller) as usize).into()),
+      } => values.push(
+        (*value as i128)
+          .checked_add(*controller as i128)
+          .and_then(|v| usize::try_from(v).ok())
+          .ok_or_else(plus_overflow)?
+          .into(),
+      ),
       Type2::FloatValue {
         value: controller, ..
-      } => values.push(((*value as isize + *controller as isize) as usize).into()),
+      } => values.push(
+        (*value as i128)
+          .checked_add(*controller as i128)
+          .and_then(|v| usize::try_from(v).ok())
+          .ok_or_else(plus_overflow)?
+          .into(),
+      ),
       Type2::Typename { ident, .. } => {
         let nv = numeric_values_from_ident(cddl, ident);
         if nv.is_empty() {
@@ -647,13 +672,30 @@ pub fn plus_operation<'a>(
     Type2::IntValue { value, .. } => match controller {
       Type2::IntValue {
         value: controller, ..
-      } => values.push((value + controller).into()),
+      } => values.push(
+        value
+          .checked_add(*controller)
+          .ok_or_else(plus_overflow)?
+          .into(),
+      ),
       Type2::UintValue {
         value: controller, ..
-      } => values.push((value + *controller as isize).into()),
+      } => values.push(
+        (*value as i128)
+          .checked_add(*controller as i128)
+          .and_then(|v| isize::try_from(v).ok())
+          .ok_or_else(plus_overflow)?
+          .into(),
+      ),
       Type2::FloatValue {
         value: controller, ..
-      } => values.push((value + *controller as isize).into()),
+      } => values.push(
+        (*value as i128)
+          .checked_add(*controller as i128)
+          .and_then(|v| isize::try_from(v).ok())
+          .ok_or_else(plus_overflow)?
+          .into(),
+      ),
       Type2::Typename { ident, .. } => {
         let nv = numeric_values_from_ident(cddl, ident);
         if nv.is_empty() {
